@@ -2,6 +2,7 @@
 // (headers of /repo's working tree) and prints canonical trace lines that the extracted Coq
 // model (ocaml/mtmodel) must reproduce bit for bit.
 #include "common.hpp"
+#include "app_utils.hpp"
 
 namespace vh
 {
@@ -302,6 +303,38 @@ void do_layout(Toks &tk, std::ostream &os)
         os << "\n";
     }
 }
+// ------------------------------------------------------------------ WAFF: write_affinity_file on a position-encoded vector
+std::string g_tmp_path;
+void do_waff(Toks &tk, std::ostream &os)
+{
+    std::string id = "W " + tk.tok();
+    size_t K = (size_t)tk.integer(), L = (size_t)tk.integer();
+    bool assort = tk.integer() == 1;
+    std::vector<double> aff(assort ? K * L : K * K * L);
+    for (size_t p = 0; p < aff.size(); p++)
+        aff[p] = (double)p;
+    utils::Report rep{};
+    rep.nof_realizations = 1;
+    rep.vec_L2.push_back(-1.0);
+    write_affinity_file(boost::filesystem::path(g_tmp_path), aff, rep, K, L);
+    std::ifstream in(g_tmp_path);
+    std::string line;
+    size_t n = 0;
+    while (std::getline(in, line))
+    {
+        if (n > 0)
+        {
+            std::istringstream is(line);
+            std::string t;
+            os << id << " line " << n << " :";
+            while (is >> t)
+                os << " " << t;
+            os << "\n";
+        }
+        n++;
+    }
+    std::remove(g_tmp_path.c_str());
+}
 } // namespace vh
 
 int main(int argc, char **argv)
@@ -313,6 +346,7 @@ int main(int argc, char **argv)
     }
     std::ifstream in(argv[1]);
     std::ofstream os(argv[2]);
+    vh::g_tmp_path = std::string(argv[2]) + ".tmp";
     // the library prints progress on stdout: silence it
     std::ofstream devnull("/dev/null");
     std::cout.rdbuf(devnull.rdbuf());
@@ -340,6 +374,8 @@ int main(int argc, char **argv)
                 vh::do_e2e(tk, buf);
             else if (c == "LAYOUT")
                 vh::do_layout(tk, buf);
+            else if (c == "WAFF")
+                vh::do_waff(tk, buf);
             else if (c == "#")
                 ;
             else
